@@ -64,6 +64,27 @@ func Snapshot(rm *protocol.ResolutionModel) string {
 	return fmt.Sprintf("%s|docnil=%v|eqnil=%v|pubnil=%v|unpubnil=%v", b, rm.Doc == nil, rm.EquivalentReferences == nil, rm.PublishedOperations == nil, rm.UnpublishedOperations == nil)
 }
 
+// cloneModel deep-copies a resolution model (documents and anchor origin through JSON; operation lists keep their elements).
+func cloneModel(rm *protocol.ResolutionModel) *protocol.ResolutionModel {
+	c := *rm
+	if rm.Doc != nil {
+		b, _ := json.Marshal(rm.Doc)
+		var d map[string]interface{}
+		_ = json.Unmarshal(b, &d)
+		c.Doc = d
+	}
+	if rm.AnchorOrigin != nil {
+		b, _ := json.Marshal(rm.AnchorOrigin)
+		var a interface{}
+		_ = json.Unmarshal(b, &a)
+		c.AnchorOrigin = a
+	}
+	c.EquivalentReferences = append([]string(nil), rm.EquivalentReferences...)
+	c.PublishedOperations = append([]*operation.AnchoredOperation(nil), rm.PublishedOperations...)
+	c.UnpublishedOperations = append([]*operation.AnchoredOperation(nil), rm.UnpublishedOperations...)
+	return &c
+}
+
 func opSnapshot(o *operation.AnchoredOperation) string {
 	b, _ := json.Marshal(o)
 	return string(b)
@@ -112,8 +133,26 @@ func Explore(r *core.Run, o Options) {
 		if o.Mutation {
 			before, opBefore = Snapshot(n.impl), opSnapshot(sym.Op)
 		}
-		res, err := app.Apply(sym.Op, n.impl)
 		det := map[string]any{"history": pathNames(n, si), "operation": string(sym.Op.OperationRequest), "anchoring": sym.Desc.Anchor}
+		prevImpl := n.impl
+		if !o.Mutation {
+			// transitions run in parallel: every call gets its own deep copy of the previous state, so that code which
+			// (wrongly) edits its input in place cannot disturb the other transitions; the edit still shows in the result
+			prevImpl = cloneModel(n.impl)
+		}
+		var res *protocol.ResolutionModel
+		var err error
+		if pf := func() (f *core.Fail) {
+			defer func() {
+				if p := recover(); p != nil {
+					f = &core.Fail{Key: "panic/" + sym.Name, What: fmt.Sprintf("Apply panicked on %s: %v", sym.Name, p), Detail: merge(det, map[string]any{"case": id, "panic": fmt.Sprint(p)})}
+				}
+			}()
+			res, err = app.Apply(sym.Op, prevImpl)
+			return nil
+		}(); pf != nil {
+			return nil, pf
+		}
 		if o.Mutation {
 			if after := Snapshot(n.impl); after != before {
 				return nil, &core.Fail{Key: "mutated-previous-state/" + sym.Name, What: "Apply modified the previous resolution model", Detail: merge(det, map[string]any{"before": before, "after": after, "case": id})}
